@@ -456,7 +456,13 @@ fn eval_case(case: &Case, qs: &[Q]) -> CaseResult {
             } else {
                 "extra-unindexed-row".to_string()
             };
-            violations.push(Violation::new("match-set", &format!("{}/{}", q.kind(), class), ctx.clone(), art.clone()));
+            // root-cause classes (derived from the input shape): see the known-findings list
+            let key = match (q.kind().as_str(), class.as_str()) {
+                ("match-and", "extra-indexed-row+query-token-absent-from-index") => "and-query-drops-token-unknown-to-index".to_string(),
+                ("match-and", "extra-unindexed-row") => "and-operator-ignored-on-unindexed-rows".to_string(),
+                (k, c) => format!("{k}/{c}"),
+            };
+            violations.push(Violation::new("match-set", &key, ctx.clone(), art.clone()));
         }
         for u in want.difference(&got_set) {
             let class = if built.live.get(u).map(|x| x.1).unwrap_or(false) {
@@ -471,7 +477,13 @@ fn eval_case(case: &Case, qs: &[Q]) -> CaseResult {
             } else {
                 "missing-unindexed-row".to_string()
             };
-            violations.push(Violation::new("match-set", &format!("{}/{}", q.kind(), class), ctx.clone(), art.clone()));
+            let key = match class.as_str() {
+                "missing-unindexed-row" if matches!(q, Q::Phrase(_) | Q::BoolPhrase(..)) => "phrase-not-searched-on-unindexed-rows".to_string(),
+                "missing-unindexed-row+index-has-no-tokens" => "unindexed-rows-dropped-when-index-has-no-tokens".to_string(),
+                "missing-unindexed-row+query-token-repeated-in-document" => "unindexed-row-with-repeated-query-token-dropped".to_string(),
+                c => format!("{}/{}", q.kind(), c),
+            };
+            violations.push(Violation::new("match-set", &key, ctx.clone(), art.clone()));
         }
         // scores non-increasing
         if got.windows(2).any(|w| !(w[0].1 >= w[1].1)) || got.iter().any(|g| g.1.is_nan()) {
